@@ -1,7 +1,7 @@
 """C01 Every design vector decodes to a valid architecture instance.\n\nCorrespondence: see harness/procpass.py - constructor and decode must not fail when the model admits a design; every\ndecoded instance must be final, feasible and a design of the model (row in allRows, node set = closure, connection\nmatrices in connSets, DV nodes valued in their domain)."""
 from .. import proc, procpass
 
-KINDS = procpass.SOUND_KINDS | {'ctor-exc', 'decode-exc', 'infeasible-graph-but-designs-exist'}
+KINDS = procpass.SOUND_KINDS | {'ctor-exc', 'decode-exc', 'infeasible-graph-but-designs-exist', 'lean-decode-design', 'lean-contract'}
 RULE = ('seeded problems from streams (tame, tree, cons, dv, conn, conn-dv, shared) x both selection encoders; per problem every vector of the declared design space when <= 200 vectors (continuous variables at 3 sample points), else 200 samples; a case is one (problem, encoder); non-trivial = >= 2 architectures or a connection choice or DV nodes; distinct by content hash')
 BUDGET = {'quick': 110, 'thorough': 1500}
 JOBS = {'quick': 4, 'thorough': 16}
